@@ -649,3 +649,33 @@ def option_over_union_unsimplified(case, why):
     array -- its contents simplify, one of them is an option -- the option wrapper is rebuilt around it unsimplified."""
     return (_option_directly_over_union(case.get("from")) and why.startswith("result fails validity")
             and "simplify_optiontype" in why)
+
+
+def _lb_features(case):
+    import replay
+    return replay.lb_features(case["form"]) if case.get("act") == "layoutbuilder" else set()
+
+
+def layoutbuilder_list_below_nonrouting_node(case, why):
+    """F91: a list-type Form (ListOffsetForm, strings) directly below a Regular / Indexed / ByteMasked / BitMasked / Unmasked /
+    Union Form: those FormBuilders do not pass begin_list / end_list on, so the first begin_list raises."""
+    fs = _lb_features(case)
+    if not any(f.startswith("list-below-") for f in fs):
+        return False
+    if "a command that fits the Form raised ValueError: ListOffsetArray" in why:
+        return True
+    # below a union the begin_list / end_list pair is swallowed: the union's index points at a list that was never made
+    return "list-below-union" in fs and "snapshot fails validity" in why and "UnionArray8_64): index[i] >= len(content[tags[i]])" in why
+
+
+def layoutbuilder_regular_below_list(case, why):
+    """F92: a RegularForm directly below a ListOffsetForm: the list's offsets count the leaves appended, not the rows of the
+    RegularArray, so the snapshot's offsets point beyond the content (or show other rows)."""
+    return ("reg-below-list" in _lb_features(case)
+            and (("snapshot fails validity" in why and "len(content)" in why) or "differs from the appended values" in why))
+
+
+def layoutbuilder_string_field_of_record(case, why):
+    """F93: string() for a string-typed field of a RecordForm (or, after an empty string, the next field's command) raises
+    '... needs begin_list' (the same Form at top level or below a list accepts it)."""
+    return "str-below-rec" in _lb_features(case) and "a command that fits the Form raised ValueError: ListOffsetArray Builder" in why
